@@ -22,7 +22,7 @@ def pick(rnd, i):
 CHECK = ComponentCheck("C22", pick, tiers={"quick": (48, 300), "thorough": (1500, 1000)}, drain=0,
                        embedded=(("AsyncMemoryBank",), ("tagged_measurer",)), suite=(("AsyncMemoryBank",), ("test/lib/test_metrics.py",)))
 shards, run_shard = CHECK.shards, CHECK.run_shard
-RULE = ("[plus a second workload: the AsyncMemoryBank embedded in TaggedLatencyMeasurer (slot store), watched passively (vf/passive.py) against the same reference model, conditions embedded:*] histories = hostile random read/write sequences for 1-4 read ports, 1-3 write ports, depth {2,3,4,5,8,11}, width {4,6,8,12}, granularity None or a "
+RULE = ("[in 30% of the histories every provided exclusive method has a second, competing caller transaction: a request is issued by the main caller, the rival or both; condition exclusive_method_serves_at_most_one_caller_per_cycle] [plus a second workload: the AsyncMemoryBank embedded in TaggedLatencyMeasurer (slot store), watched passively (vf/passive.py) against the same reference model, conditions embedded:*] histories = hostile random read/write sequences for 1-4 read ports, 1-3 write ports, depth {2,3,4,5,8,11}, width {4,6,8,12}, granularity None or a "
         "divisor of the width; reads are aimed at the most recently written row in half of the cycles; distinct non-trivial case = (config, tags among "
         "partial mask / read and write of the same row in one cycle / read of the last written row)")
 ASSUMPTIONS = ["no two write ports address the same row in one cycle"]
